@@ -165,16 +165,30 @@ def run(ck):
                 probs.append("%r is written for %s but read back as %s" % (lit, en.rsplit("::", 1)[1], reader[key].rsplit("::", 1)[-1]))
         return probs
 
+    def reader_of(cls):
+        """the function that reads a header of class cls: its own override of parseRaw, or of parse (a class needs only one of the two)"""
+        for m_ in ("parseRaw", "parse"):
+            if prog.by_base.get(HH + cls + "::" + m_):
+                return lib.single(prog, HH + cls + "::" + m_)
+        raise AnalysisBroken("anchor %s%s::parseRaw / ::parse (the reader of the header) not found in the analysed program" % (HH, cls))
+
+    def reader_pairs(fn):
+        """{literal: enumerator} however the reader maps tokens: if-chain, function-local static table, namespace-scope table it walks"""
+        out = dict(tables.reader_map(prog, fn))
+        for k_, v_ in tables.referenced_tables(prog, fn, prog.lambdas_in(fn)).items():
+            out.setdefault(k_, v_)
+        return out
+
     w = tables.writer_map(prog, lib.single(prog, HH + "Connection::write"), lib)
-    r = tables.reader_map(prog, lib.single(prog, HH + "Connection::parseRaw"))
-    pr_ = lib.single(prog, HH + "Connection::parseRaw")
+    pr_ = reader_of("Connection")
+    r = reader_pairs(pr_)
     ins = all(any(a.get("const") == "e:Pistache::CaseSensitivity::Insensitive" for a in e.get("args", [])) for e in pr_.calls(lambda e: (e.get("callee") or "") == "Pistache::match_string"))
     ck.require(len(w) >= 2 and len(r) >= 2, "Connection tables not extracted (%d/%d)" % (len(w), len(r)))
     probs = agree("Connection", w, r, ins, allow_unmapped=("Pistache::Http::ConnectionControl::Ext",))
     ck.ob("C16-R3", "table:Connection", not probs, pr_.loc, pr_, "; ".join(probs) or "writer %s ⊆ reader %s (case-insensitive=%s)" % (sorted(w.values()), sorted(r), ins))
     w = tables.writer_map(prog, lib.single(prog, HH + "encodingString"), lib)
-    er = lib.single(prog, HH + "EncodingHeader::parseRaw")
-    r = tables.reader_map(prog, er)
+    er = reader_of("EncodingHeader")
+    r = reader_pairs(er)
     ck.require(len(w) >= 5 and len(r) >= 5, "Encoding tables not extracted (%d/%d)" % (len(w), len(r)))
     probs = agree("Encoding", w, r, True, allow_unmapped=(HH + "Encoding::Unknown",))
     ck.ob("C16-R3", "table:Encoding", not probs, er.loc, er, "; ".join(probs) or "writer %s ⊆ reader %s" % (sorted(w.values()), sorted(r)))
@@ -188,13 +202,13 @@ def run(ck):
     triv = timed = None
     for v in prog.vars:
         # static locals of CacheControl::parseRaw, or file-scope tables of http_header.cc
-        mine = "CacheControl::parseRaw" in (v.get("func") or "") or (not v.get("func") and (v.get("file") or "").endswith("/common/http_header.cc"))
+        mine = "CacheControl::parse" in (v.get("func") or "") or (not v.get("func") and (v.get("file") or "").endswith("/common/http_header.cc"))
         if v["name"].endswith("TrivialDirectives") and mine:
             triv = tables.static_table(v.get("init"))
         if v["name"].endswith("TimedDirectives") and mine:
             timed = tables.static_table(v.get("init"))
     ck.require(triv and timed, "TrivialDirectives / TimedDirectives tables not found")
-    cr = lib.single(prog, HH + "CacheControl::parseRaw")
+    cr = reader_of("CacheControl")
     rd = dict(triv)
     rd.update(timed)
     probs = agree("CacheControl", names[0], rd, False, allow_unmapped=("Pistache::Http::CacheDirective::Ext",))
@@ -210,11 +224,12 @@ def run(ck):
     ck.ob("C16-R3", "table:CacheControl", not probs, cr.loc, cr, "; ".join(probs) or "%d directive names agree; delta-bearing set == timed table %s" % (len(rd), sorted(rt)))
     ew = lib.single(prog, HH + "Expect::write")
     lits = [l_ for l_ in (tables.arg_literal(prog, a) for e in ew.events("call") if e.get("op") == "<<" for a in e.get("args", [])[-1:]) if l_ is not None]
-    epr = lib.single(prog, HH + "Expect::parseRaw")
-    erd = dict(tables.reader_map(prog, epr))
+    epr = reader_of("Expect")
+    erd = dict(reader_pairs(epr))
     # other reader shapes: the literal (or the named constant both sides share) handed to a comparison routine
     for e in epr.events("call"):
-        if (e.get("callee") or "") in tables.MATCHERS | {"memcmp", "std::memcmp"}:
+        if (e.get("callee") or "") in tables.MATCHERS | {"memcmp", "std::memcmp", "std::operator==", "std::operator!="} or \
+                strip_tmpl(e.get("callee") or "") in ("std::basic_string::compare", "std::basic_string_view::compare", "std::operator==", "std::operator!="):
             for a in e.get("args", []):
                 l_ = tables.arg_literal(prog, a)
                 if l_ is not None:
